@@ -268,5 +268,24 @@ PROPS["C10"] = dict(
                 "get,use,[reslice],put,get,get over 13 types x C<=3 x K<=3 (5)."),
     level_note="Recycling depends on sync.Pool's per-P cache; the evidence counts recycled gets so a run that never recycled is visible.",
 )
+PROPS["C12"] = dict(
+    pkg="c12", idx=12,
+    rule=("Histories over {alloc, Slice (valid and invalid), AppendSample, Append (any ordered pair of live views with equal channel count, self and "
+          "aliases included; sources overlapping the written region excluded), Write, SetSample, drop} executed side by side on the implementation and on a "
+          "model of plain Go slices (storage id, offset, len, cap). (a) bounded-exhaustive DFS: every operation sequence up to depth 3 (quick) / 4 (thorough) "
+          "after the initial allocation, 1-3 channels, capacity <= 4 frames, <= 6 live views, 4 initial shapes; (b) rapid: 1-200 steps, up to 8 channels, "
+          "capacity up to 64 frames, 7 element types; (c) thorough: native fuzzing of a byte-coded history. Oracle after every step: every live view's "
+          "Len/Cap/Length/Capacity, every sample in [0,Len) and, through a capacity-long reslice, every position in [Len,Cap) equal the model's; capacity after a "
+          "growing append is read from the implementation and only constrained. Non-trivial: a mutation through a view while another view of the same storage is "
+          "alive; sub-classes growing append with a live old-storage view, AppendSample into a sibling's range, slice beyond length, self-append, rejected slice."),
+    quick=dict(rapid=dict(checks=6000, shards=4)),
+    thorough=dict(rapid=dict(checks=60000, shards=16), fuzz=dict(targets=["FuzzC12"], seconds=60), timeout=3600),
+    assumptions=COMMON_ASSUME + ["capacity chosen by a growing Append is the Go runtime's; the model reads it from the implementation (>= length, whole frames when the length is)",
+                                 "an in-place Append may trim a non-frame-aligned capacity to the frame multiple (library alignment); both outcomes are accepted"],
+    technique="model-based testing: bounded-exhaustive DFS over operation histories + rapid-generated long histories + native fuzzing, all compared step by step with a plain-Go-slice reference model",
+    level_text=("Every history up to depth 3/4 over the small alphabet is enumerated (transition count in the evidence); long random histories over larger shapes are "
+                "sampled; all views are compared with the model after every step, so visibility through exactly the covering views follows."),
+    level_note="Trusts the harness model of Go slices; the exact transition count of the DFS is recorded in coverage.notes.dfs_transitions.",
+)
 
 NOT_APPLICABLE = {}
